@@ -110,7 +110,7 @@ func (in *c07inst) cfg() string {
 
 func (in *c07inst) Key() string {
 	return fmt.Sprintf("%v|%v|%d|%d|%d|%s|%s", in.stored, in.nomE.UnixNano(), in.obsE, in.clock.Now().UnixNano(), in.writes,
-		core.VerifDumpJSON(in.loc.VerifState()), lib.Canon(lib.Pairs(in.ctx, in.store, "L")))
+		core.VerifKeyJSON(in.loc.VerifState()), lib.Canon(lib.Pairs(in.ctx, in.store, "L")))
 }
 
 // visibility per the property: 1 = must be visible, 0 = must be invisible, -1 = inside the tolerance window
